@@ -50,6 +50,7 @@ macro_rules! dispatch {
             "C08" => $f(&props::c08::C08, $($arg),*),
             "C09" => $f(&props::c09::C09, $($arg),*),
             "C10" => $f(&props::c10::C10, $($arg),*),
+            "C11" => $f(&props::c11::C11, $($arg),*),
             "C12" => $f(&props::c12::C12, $($arg),*),
             other => {
                 println!("HARNESS-ERROR unknown property {other}");
